@@ -10,9 +10,11 @@ import (
 	"bytes"
 	"crypto"
 	"crypto/sha256"
+	stded "crypto/ed25519"
 	"crypto/sha512"
 	"fmt"
 	"math/rand/v2"
+	"os"
 	"runtime"
 	"strings"
 	"sync"
@@ -417,6 +419,7 @@ func linearizability(r *mon.Run, c Case) {
 		}
 	}
 	recs := make([]*recCache, c.Clients)
+	scratch := make([]curve.CompressedEdwardsY, c.Clients)
 	var wg sync.WaitGroup
 	var arrived int64
 	rounds := c.Ops
@@ -427,6 +430,7 @@ func linearizability(r *mon.Run, c Case) {
 			defer wg.Done()
 			rc := recs[cl]
 			v := cache.NewVerifier(rc)
+			var ky *curve.CompressedEdwardsY
 			for round := 0; round < rounds; round++ {
 				// spin barrier: all clients arrive at the cache together
 				atomic.AddInt64(&arrived, 1)
@@ -435,19 +439,27 @@ func linearizability(r *mon.Run, c Case) {
 				}
 				e := perClient[cl][round]
 				y := e.CompressedY()
+				if cl%2 == 1 {
+					// odd clients reuse one scratch key buffer for every call, as a caller of the Cache interface
+					// may: the cache must not keep the pointer it was given
+					scratch[cl] = y
+					ky = &scratch[cl]
+				} else {
+					ky = &y
+				}
 				nKinds := 3
 				if c.Capacity%2 == 0 || c.Clients%2 == 0 {
 					nKinds = 4 // histories that also drive the real Verifier upsert (checked presence-only)
 				}
 				switch rc.rng.IntN(nKinds) {
 				case 0:
-					rc.Get(&y)
+					rc.Get(ky)
 				case 1:
-					rc.Put(&y, e)
+					rc.Put(ky, e)
 				case 2:
 					// the Verifier's own upsert: Get, then Put on a miss (two critical sections)
-					if rc.Get(&y) == nil {
-						rc.Put(&y, e)
+					if rc.Get(ky) == nil {
+						rc.Put(ky, e)
 					}
 				default:
 					v.AddPublicKey(ed25519.PublicKey(y[:])) // real upsert path; creates its own expansion on a miss
@@ -558,7 +570,105 @@ func tableDigestAPI() string {
 	return fmt.Sprintf("%x", h.Sum(nil))
 }
 
+// coldStart: the very first library operations of this process are issued concurrently, with no sequential
+// warm-up, so that lazily initialised package state (tables built on first use, sync.Once fast paths) is
+// initialised under contention while the race detector watches. Inputs are prepared with Go's own crypto only.
+func coldStart(r *mon.Run) {
+	rng := r.Rng("c18/coldstart")
+	seed := mon.Bytes(rng, 32)
+	spriv := stded.NewKeyFromSeed(seed)
+	spub := spriv.Public().(stded.PublicKey)
+	msg := mon.Bytes(rng, 64)
+	ssig := stded.Sign(spriv, msg)
+	xk := mon.Bytes(rng, 32)
+	type res struct {
+		name string
+		out  []byte
+	}
+	ops := []func() res{
+		func() res { return res{"Verify", bb(ed25519.Verify(ed25519.PublicKey(spub), msg, ssig))} },
+		func() res {
+			return res{"VerifyWithOptions(StdLib)", bb(ed25519.VerifyWithOptions(ed25519.PublicKey(spub), msg, ssig, &ed25519.Options{Verify: ed25519.VerifyOptionsStdLib}))}
+		},
+		func() res {
+			x, err := ed25519.NewExpandedPublicKey(ed25519.PublicKey(spub))
+			if err != nil {
+				return res{"VerifyExpanded", nil}
+			}
+			return res{"VerifyExpanded", bb(ed25519.VerifyExpanded(x, msg, ssig))}
+		},
+		func() res { return res{"Sign", ed25519.Sign(ed25519.PrivateKey(spriv), msg)} },
+		func() res { return res{"NewKeyFromSeed", ed25519.NewKeyFromSeed(seed)} },
+		func() res { out, _ := x25519.X25519(xk, x25519.Basepoint); return res{"X25519(Basepoint)", out} },
+		func() res {
+			bv := ed25519.NewBatchVerifier()
+			for i := 0; i < 4; i++ {
+				bv.Add(ed25519.PublicKey(spub), msg, ssig)
+			}
+			all, _ := bv.Verify(nil)
+			return res{"Batch", bb(all)}
+		},
+		func() res {
+			v := cache.NewVerifier(cache.NewLRUCache(2))
+			return res{"cache.Verify", bb(v.Verify(ed25519.PublicKey(spub), msg, ssig))}
+		},
+		func() res {
+			pi := ecvrf.Prove(ed25519.PrivateKey(spriv), msg)
+			ok, beta := ecvrf.Verify(ed25519.PublicKey(spub), pi, msg)
+			return res{"ecvrf", append(append(pi, bb(ok)...), beta...)}
+		},
+		func() res {
+			msk, _ := sr25519.NewMiniSecretKeyFromBytes(seed)
+			kp := msk.ExpandUniform().KeyPair()
+			st := sr25519.NewSigningContext([]byte("c")).NewTranscriptBytes(msg)
+			sig, _ := kp.Sign(zeroes{}, st)
+			b, _ := sig.MarshalBinary()
+			return res{"sr25519", append(b, bb(kp.PublicKey().Verify(st, sig))...)}
+		},
+		func() res {
+			s, _ := scalar.NewFromBytesModOrderWide(msg)
+			b, _ := curve.NewEdwardsPoint().DoubleScalarMulBasepointVartime(s, curve.ED25519_BASEPOINT_POINT, s).MarshalBinary()
+			return res{"DoubleScalarMulBasepointVartime", b}
+		},
+		func() res {
+			s, _ := scalar.NewFromBytesModOrderWide(msg)
+			b, _ := curve.NewRistrettoPoint().MulBasepoint(curve.RISTRETTO_BASEPOINT_TABLE, s).MarshalBinary()
+			return res{"Ristretto.MulBasepoint", b}
+		},
+	}
+	const copies = 3
+	results := make([]res, len(ops)*copies)
+	var wg sync.WaitGroup
+	start := make(chan struct{})
+	for i := range results {
+		wg.Add(1)
+		go func(i int) {
+			defer wg.Done()
+			<-start
+			results[i] = ops[i%len(ops)]()
+		}(i)
+	}
+	close(start)
+	wg.Wait()
+	// now sequentially: every concurrent first-use result must equal the sequential one
+	for i, got := range results {
+		want := ops[i%len(ops)]()
+		r.Eval([]byte("cold/" + got.name))
+		r.Hist("coldstart/" + got.name)
+		if !bytes.Equal(got.out, want.out) {
+			r.Violate("concurrent/cold-start/"+got.name, fmt.Sprintf("first use under contention gave %x, sequential %x", head(got.out), head(want.out)), Case{Kind: "coldstart"})
+		}
+	}
+}
+
 func main() {
+	if len(os.Args) > 1 && os.Args[1] == "-coldstart" {
+		os.Args = append(os.Args[:1], os.Args[2:]...)
+		r := mon.Start("C18", "cold start: the first library operations of a fresh process issued concurrently under the race detector")
+		coldStart(r)
+		r.Finish()
+		return
+	}
 	r := mon.Start("C18", "stress: G goroutines x N PRNG-chosen operations (sign, verify plain/ctx/ph/expanded with shared keys and presets, own batch verifiers over shared keys, key derivation, ECVRF, X25519 with the shared Basepoint, sr25519 with a shared signing context, fixed-base/custom tables, multiscalar over shared points and expansions, a shared cache.Verifier of capacity 1..3 over 5 keys) under the race detector, each result compared with its sequential value, shared objects re-checked afterwards, table digests before/after, cache structure inspected every 16 operations; linearizability: many short histories (3-6 clients x 6-12 rounds behind a spin barrier, capacity 1..3, universe capacity+2, PRNG yields/sleeps around and between the Get and Put of an upsert, unique expansion per Put) plus longer free-running ones, checked with porcupine against a sequential LRU; non-trivial = one stress run or one history; distinct = its PRNG stream")
 	var c Case
 	// key universe for the histories
